@@ -76,6 +76,8 @@ type pgen struct {
 	isTop  bool
 	// inProducer: generating the bindings of an inserted producer call.
 	inProducer bool
+	// curCallee: the callee of the call whose bindings are being generated.
+	curCallee string
 	// forceMerged: the next call binds one parameter to this output of a
 	// map call (merged over its forks) and is, more often than not, a map
 	// call itself (over another parameter).
@@ -953,6 +955,9 @@ func (g *pgen) fieldsOf(s source) []source {
 
 func (g *pgen) genCallBindings(c *Call) {
 	t := g.t
+	saveCallee := g.curCallee
+	g.curCallee = c.Callee
+	defer func() { g.curCallee = saveCallee }()
 	ins, _, _ := g.prog.Callable(c.Callee)
 	mapShape, mapKind := "", ""
 	splitIdx := map[int]bool{}
@@ -1079,6 +1084,9 @@ func (g *pgen) genCallBindings(c *Call) {
 // badSplitFeed: would binding e to an input the callee maps over create a
 // shape excluded because of a known finding?
 func (g *pgen) badSplitFeed(e Expr) bool {
+	if g.curCallee != "" && g.excludedTwin(e) {
+		return true
+	}
 	r, ok := e.(Ref)
 	if !ok || r.Call == "" {
 		return false
@@ -1088,6 +1096,74 @@ func (g *pgen) badSplitFeed(e Expr) bool {
 	}
 	if pc := g.pl.Call(r.Call); pc != nil && pc.Disabled != nil && g.excluded("split-over-disabled-call-output") {
 		return true
+	}
+	return false
+}
+
+// reachablePipelines: the pipeline and every pipeline it calls, transitively.
+func (g *pgen) reachablePipelines(name string, into map[string]bool) {
+	pl := g.prog.Pipeline(name)
+	if pl == nil || into[name] {
+		return
+	}
+	into[name] = true
+	for _, c := range pl.Calls {
+		g.reachablePipelines(c.Callee, into)
+	}
+}
+
+// excludedTwin: e (at any depth) refers to a call of a pipeline that shares
+// a map call statement with the pipeline being called now - two instances
+// of one map call, the forks of one feeding the split of the other (known
+// finding: the fork of the twin is not found, the element arrives as null).
+func (g *pgen) excludedTwin(e Expr) bool {
+	mine := map[string]bool{}
+	g.reachablePipelines(g.curCallee, mine)
+	if len(mine) == 0 {
+		return false
+	}
+	var refs []Ref
+	var walk func(e Expr)
+	walk = func(e Expr) {
+		switch x := e.(type) {
+		case Ref:
+			if x.Call != "" {
+				refs = append(refs, x)
+			}
+		case Split:
+			walk(x.E)
+		case ArrayLit:
+			for _, el := range x.Elems {
+				walk(el)
+			}
+		case MapLit:
+			for _, el := range x.Vals {
+				walk(el)
+			}
+		case StructLit:
+			for _, el := range x.Vals {
+				walk(el)
+			}
+		}
+	}
+	walk(e)
+	for _, r := range refs {
+		pc := g.pl.Call(r.Call)
+		if pc == nil {
+			continue
+		}
+		theirs := map[string]bool{}
+		g.reachablePipelines(pc.Callee, theirs)
+		for name := range theirs {
+			if !mine[name] {
+				continue
+			}
+			for _, c := range g.prog.Pipeline(name).Calls {
+				if c.Mapped && g.excluded("twin-instance-feeds-split") {
+					return true
+				}
+			}
+		}
 	}
 	return false
 }
